@@ -31,6 +31,10 @@ type World struct {
 	modsetsDone   bool
 	NonNilGlobals map[*ssa.Global]bool
 	TypeInvs      map[string][]*Clause // receiver type key, e.g. (*frame.codec)
+	sharedIfs     []*types.Interface
+	sharedOnce    sync.Once
+	mwMu          sync.Mutex
+	mwCache       map[string]bool
 }
 
 type fnInfo struct {
